@@ -157,7 +157,8 @@ impl Serialize for ImageHeader {
                 }
             },
             Self::Unknown { version, data } => {
-                let len = (1 + data.len()).try_into()?;
+                // two octets length, one octet version
+                let len = (3 + data.len()).try_into()?;
                 writer.write_u16::<LittleEndian>(len)?;
 
                 writer.write_u8(*version)?;
